@@ -1,5 +1,6 @@
 import ConcVerif.Proof.Barrier
 import ConcVerif.Proof.BarrierLive
+import ConcVerif.Proof.BarrierCalls
 /-! # C09 — Barrier releases a generation only when every participant has arrived
 
 All statements are over `Reachable P s`: every accepted event sequence of the model in
@@ -541,5 +542,37 @@ theorem C09_stuck_owes_arrival {P : List Tid} (hP : P.Nodup) {s : St} (h : Reach
       · by_cases hui : s.pc u = .idle
         · exact ⟨u, hu, hui⟩
         · exact absurd (key u e hp he hui) id
+
+/-! ## The ghost arrival counter is tied to the calls in the trace
+
+`C09_return_sound` speaks about `s.arr t`.  The property speaks about a thread's *n-th wait*.  For
+every accepted trace the two coincide: `arr t` is the number of `wait` / `wait_and_drop` calls `t`
+has started, minus the one whose arrival is not yet counted (pc `called` / `locked`). -/
+
+/-- arrivals counted + (1 if inside a call before its arrival) = calls started, per thread -/
+theorem C09_arrivals_are_calls {P : List Tid} {es : List (Tid × Ev)} {s : St} (h : run P es = some s)
+    (t : Tid) : s.arr t + (s.pc t).pre = callsOf t es := by
+  have := K_run es (K_init P) h t
+  simpa using this
+
+/-- The property on the trace itself: when thread `t` returns from its n-th call (`n` = the number
+of `wait` / `wait_and_drop` calls of `t` in the trace) the barrier has completed `n` generations and
+every current participant has made at least `n` arrivals (and hence at least `n` calls). -/
+theorem C09_return_sound_calls {P : List Tid} (hP : P.Nodup) {es : List (Tid × Ev)} {s s' : St} {t : Tid}
+    {k : Kind} (h : run P es = some s) (hs : step s t (.ret k) = some s') :
+    callsOf t es ≤ s.generation ∧
+      ∀ u, u ∈ s.parts → callsOf t es ≤ s.arr u ∧ callsOf t es ≤ callsOf u es := by
+  have hr := C09_return_sound hP ⟨es, h⟩ hs
+  have ht := C09_arrivals_are_calls h t
+  have hpre : (s.pc t).pre = 0 := by
+    cases hp : s.pc t <;> simp [step, hp] at hs <;> rfl
+  refine ⟨by omega, fun u hu => ?_⟩
+  have h1 := hr.2 u hu
+  have h2 := C09_arrivals_are_calls h u
+  constructor <;> omega
+
+/-- non-vacuity: in the witness trace thread 2 made two calls and two arrivals -/
+example : ∃ s, run [1, 2] witnessTrace = some s ∧ callsOf 2 witnessTrace = s.arr 2 + (s.pc 2).pre :=
+  ⟨_, rfl, by decide⟩
 
 end ConcVerif.Barrier
